@@ -238,6 +238,11 @@ func c16(c *Ctx) {
 	if os.Getenv("GOOMVET_X86IDX") != "" {
 		c16IndexProbe(c.K1())
 	}
+	// R8: the function-extent scanner built on the decoder reports an extent that ends before the instruction at which it
+	// stopped (C14.W2): a truncated decode near the end of a read window must not end the function early or late
+	if !c.importing {
+		importSiblingWhere(c, "C14", "C16.R8", func(rule string) bool { return rule == "C14.W2" }, func(cons string) bool { return strings.Contains(cons, "bytecode") })
+	}
 	c16PrefixStores(c.K1(), c.R)
 	c.R.Floor("C16.R7", 5)
 	c16Interpreter(c)
